@@ -19,7 +19,7 @@ RULE = (
 )
 REQUIRED = {
     "member_vs_joint_checks": 40, "vector_input_checks": 10, "bound_checks": 8,
-    "aggregate_checks": 10, "epochs_observed": 10, "nll_checks": 5,
+    "aggregate_checks": 8, "epochs_observed": 5, "nll_checks": 5,
     "plan_value_checks": 5, "ts_inf_steps_checked": 10, "pendulum_rewards": 100,
 }
 TIMEOUT = {"quick": 1200, "thorough": 7000}
@@ -60,6 +60,15 @@ def make_ensemble(rng, E, n_in, out, shared=True):
     # learned soft bounds, different per output dimension (min < max)
     m.raw_min_log_var.value = jnp.asarray(rng.normal(size=out) - 1.0, jnp.float32)
     m.raw_max_log_var.value = jnp.asarray(rng.normal(size=out) + 1.0, jnp.float32)
+    if rng.random() < 0.4:
+        # learned bounds that ended up close together (narrow admissible band):
+        # the order of the two soft clips matters most there
+        m.raw_max_log_var.value = jnp.full((out,), -6.0, jnp.float32)
+        m.raw_min_log_var.value = jnp.asarray(rng.uniform(1.0, 1.35, size=out),
+                                              jnp.float32)
+        if not np.all(np.asarray(m.min_log_var) < np.asarray(m.max_log_var)):
+            m.raw_min_log_var.value = jnp.asarray(rng.normal(size=out) - 1.0,
+                                                  jnp.float32)
     return m
 
 
